@@ -925,11 +925,16 @@ class YAMLPath:
 
                 # Replace a subset of special characters to alert users to
                 # potentially unintentional demarcation.
-                ppath += YAMLPath.ensure_escaped(
+                key_text = YAMLPath.ensure_escaped(
                     str(segment_attrs),
                     pathsep,
                     '(', ')', '[', ']', '^', '$', '%', ' ', "'", '"'
                 )
+                if (not ppath and key_text.startswith("/")
+                        and separator is not PathSeparators.FSLASH):
+                    # Lest the result read as forward-slash notation
+                    key_text = "\\" + key_text
+                ppath += key_text
             elif segment_type == PathSegmentTypes.INDEX:
                 ppath += "[{}]".format(segment_attrs)
             elif segment_type == PathSegmentTypes.MATCH_ALL:
